@@ -159,6 +159,43 @@ Section Failover.
   Qed.
 End Failover.
 
+(* errorFrom(a) by a request whose store a is no longer the active one changes nothing but the request's own pc *)
+Lemma failover_stale_report_ignored n resp s t a k :
+  f_pc (f_thr s t) = F2 a k -> f_active s <> a ->
+  exists s', fstep n resp s t = Some s' /\ f_active s' = f_active s /\
+             (forall u, u <> t -> f_thr s' u = f_thr s u) /\ f_pc (f_thr s' t) = F0 (S k).
+Proof.
+  intros Hp Hne. unfold fstep. rewrite Hp. eexists. split; [reflexivity|]. cbn.
+  apply Nat.eqb_neq in Hne. rewrite Hne. split; [reflexivity|]. split.
+  - intros u Hu. apply updf_neq; auto.
+  - rewrite updf_eq. reflexivity.
+Qed.
+
+(* ... and the report of the ACTIVE store's failure advances the group by exactly one *)
+Lemma failover_active_report_advances n resp s t k :
+  f_pc (f_thr s t) = F2 (f_active s) k ->
+  exists s', fstep n resp s t = Some s' /\ f_active s' = (f_active s + 1) mod n.
+Proof.
+  intros Hp. unfold fstep. rewrite Hp. eexists. split; [reflexivity|]. cbn. rewrite Nat.eqb_refl. reflexivity.
+Qed.
+
+(* With an errorFrom that moves on from the reporting store whatever the active one is, progress is lost: three
+   members, member 2 never fails; request 0 sits in member 0, request 1 in member 1, request 2 has moved the group on
+   to member 2; request 0's late report drags [active] back to 1 between request 1's report and its next current():
+   request 1 calls member 1 a second time, runs out of attempts and fails. *)
+Definition stale_ex_resp : nat -> nat -> nat -> ans := fun _ _ m => if Nat.eqb m 2 then AVal 7 else AFail.
+Definition stale_ex_sched : list nat := [0; 1; 1; 1; 1; 2; 2; 2; 2; 2; 1; 0; 1; 0; 1; 1; 1; 1].
+
+Lemma failover_stale_report_breaks_progress :
+  exists n g resp sched t,
+    g < n /\ (forall t k, resp t k g <> AFail) /\
+    f_pc (f_thr (run (fstep_stale n resp) sched (finit 0)) t) = FDone None.
+Proof.
+  exists 3, 2, stale_ex_resp, stale_ex_sched, 1. split; [repeat constructor|]. split.
+  - intros t k. unfold stale_ex_resp. cbn. discriminate.
+  - vm_compute. reflexivity.
+Qed.
+
 (* ---------- SwapStore ---------- *)
 
 Section Swap.
